@@ -238,7 +238,7 @@ def run(tier, seed):
         "router_captures": len(caps),
         "router_distinct_captures": len(cap_names),
         "exhaustive": True,
-        "samples": _samples(tier, caps),
+        "samples": core.safe_samples(lambda: _samples(tier, caps)),
     }
     rep.assumptions = ["POSIX os.path semantics (the sandbox platform); the oracle only inspects the returned string",
                        "router captures limited to URL paths of <=%d segments over the listed alphabet" % (3 if tier == "quick" else 4)]
